@@ -131,6 +131,13 @@ struct DeleteMirror {
   ids: Vec<String>,
 }
 
+/// axum 0.7's `Json` extractor deserializes one value from the front of the body and does not
+/// look at what follows it (no `Deserializer::end`): trailing bytes are ignored.
+fn json_prefix<T: serde::de::DeserializeOwned>(body: &[u8]) -> Result<T, ()> {
+  let mut de = serde_json::Deserializer::from_slice(body);
+  T::deserialize(&mut de).map_err(|_| ())
+}
+
 fn to_doc(v: &Value) -> Option<Document> {
   let o = v.as_object()?;
   Some(Document { fields: o.iter().map(|(k, v)| (k.clone(), v.clone())).collect::<BTreeMap<_, _>>() })
@@ -178,7 +185,7 @@ impl<'a> Oracle<'a> {
         if !is_json_ct(ct) {
           return (BClass::Unparsable, Core::Ok);
         }
-        match serde_json::from_slice::<Schema>(body) {
+        match json_prefix::<Schema>(body) {
           Err(_) => (BClass::Unparsable, Core::Ok),
           Ok(schema) => {
             if self.idx() {
@@ -222,7 +229,7 @@ impl<'a> Oracle<'a> {
         if !is_json_ct(ct) {
           return (BClass::Unparsable, Core::Ok);
         }
-        match serde_json::from_slice::<BulkMirror>(body) {
+        match json_prefix::<BulkMirror>(body) {
           Err(_) => (BClass::Unparsable, Core::Ok),
           Ok(b) => {
             if b.docs.is_empty() {
@@ -243,7 +250,7 @@ impl<'a> Oracle<'a> {
         if !is_json_ct(ct) {
           return (BClass::Unparsable, Core::Ok);
         }
-        match serde_json::from_slice::<DeleteMirror>(body) {
+        match json_prefix::<DeleteMirror>(body) {
           Err(_) => (BClass::Unparsable, Core::Ok),
           Ok(d) => {
             if d.ids.is_empty() {
@@ -261,7 +268,7 @@ impl<'a> Oracle<'a> {
         if !is_json_ct(ct) {
           return (BClass::Unparsable, Core::Ok);
         }
-        match serde_json::from_slice::<SearchRequest>(body) {
+        match json_prefix::<SearchRequest>(body) {
           Err(_) => (BClass::Unparsable, Core::Ok),
           Ok(req) => {
             if req.limit == 0 {
